@@ -34,6 +34,9 @@ class DCommChannelsData:
     en_new: list[bool]
     div_now: list[int]
     div_new: list[int]
+    # False if the last request was not acknowledged (device state unknown)
+    en_sync: bool = True
+    div_sync: bool = True
 
 
 ###############################################################################
@@ -378,14 +381,17 @@ class CommHandler:
                     j += 1
                     k = i
 
-            if j == 1:
+            if j == 1 and self._channels.en_sync:
                 en_req_t = (k, self._channels.en_new[k])
                 ret = self._channel_enable(en_req_t)
             else:
                 en_req_l = self._channels.en_new
                 ret = self._channel_enable(en_req_l)
             if ret.state is False:  # pragma: no cover
+                # device state unknown - next request must cover all channels
+                self._channels.en_sync = False
                 return
+            self._channels.en_sync = True
 
             # update states
             self._channels.en_now = copy.deepcopy(self._channels.en_new)
@@ -403,14 +409,17 @@ class CommHandler:
                     j += 1
                     k = i
 
-            if j == 1:
+            if j == 1 and self._channels.div_sync:
                 div_req_t = (k, self._channels.div_new[k])
                 ret = self._channel_div(div_req_t)
             else:
                 div_req_l = self._channels.div_new
                 ret = self._channel_div(div_req_l)
             if ret.state is False:  # pragma: no cover
+                # device state unknown - next request must cover all channels
+                self._channels.div_sync = False
                 return
+            self._channels.div_sync = True
 
             # update states
             self._channels.div_now = copy.deepcopy(self._channels.div_new)
